@@ -9,6 +9,7 @@ inductive PyExc where
   | valueError
   | runtimeError
   | indexError
+  | keyError
 deriving DecidableEq, Repr
 
 def findFrom (l pat : List Char) : Nat → Option Nat
@@ -64,6 +65,29 @@ def index (l : List Char) (i : Int) : Except PyExc Char :=
   else match l[j.toNat]? with
     | some c => pure c
     | none => throw .indexError
+
+/-- `d[k]` on an insertion-ordered dictionary of strings -/
+def dictGet (d : List (List Char × List Char)) (k : List Char) : Except PyExc (List Char) :=
+  match d.find? fun e => e.1 == k with
+  | some e => pure e.2
+  | none => throw .keyError
+
+/-- `best = None; for k in d: if cond(k): best = k; break` -/
+def findFirst (d : List (List Char × List Char)) (cond : List Char → Bool) : Option (List Char) :=
+  (d.find? fun e => cond e.1).map (·.1)
+
+def replaceGo (old new : List Char) : Nat → List Char → List Char
+  | 0, l => l
+  | _ + 1, [] => []
+  | f + 1, c :: t => if old.isPrefixOf (c :: t) then new ++ replaceGo old new f ((c :: t).drop old.length) else c :: replaceGo old new f t
+
+/-- `s.replace(old, new)`: every non-overlapping occurrence, left to right; an empty `old` matches before every character and at the end -/
+def replace (s old new : List Char) : List Char :=
+  if old.isEmpty then new ++ s.flatMap (fun c => c :: new) else replaceGo old new s.length s
+
+#guard replace "abcabc".toList "bc".toList "X".toList == "aXaX".toList && replace "aaa".toList "aa".toList "X".toList == "Xa".toList
+#guard replace "abc".toList [] "-".toList == "-a-b-c-".toList && replace [] [] "-".toList == "-".toList && replace "abc".toList "x".toList "y".toList == "abc".toList
+#guard (dictGet [("a".toList, "1".toList)] "a".toList).toOption == some "1".toList && (dictGet [] "a".toList).toOption == none
 
 /-- `for x in xs: body` where the body only tests and returns / raises; `some r` = the body executed `return r` -/
 def forEach {α β : Type} (xs : List α) (f : α → Except PyExc (Option β)) : Except PyExc (Option β) :=
